@@ -34,19 +34,19 @@ def patches():
     out = []
     for p in sorted(glob.glob(os.path.join(VERIF, "mutants", "*.diff"))):
         name = os.path.basename(p)[:-5]
-        out.append((name, p, EXPECT.get(name, [])))
+        out.append((name, p, EXPECT.get(name, []), "HEAD"))
     for d in sorted(glob.glob(os.path.join(VERIF, "seeded", "*"))):
         meta = os.path.join(d, "meta.json")
         if os.path.exists(meta):
             m = json.load(open(meta))
-            out.append(("seeded/" + os.path.basename(d), os.path.join(d, "patch.diff"), m.get("caught_by", [])))
+            out.append(("seeded/" + os.path.basename(d), os.path.join(d, "patch.diff"), m.get("caught_by", []), m.get("base_commit", "HEAD")))
     return out
 
 
 def main():
     want = sys.argv[1:]
     failures = 0
-    for name, patch, checks in patches():
+    for name, patch, checks, base in patches():
         if want and not any(w in name for w in want):
             continue
         if not checks:
@@ -55,7 +55,7 @@ def main():
         scratch = tempfile.mkdtemp(prefix="vsens-", dir="/tmp")
         os.rmdir(scratch)
         try:
-            subprocess.run(["git", "-C", "/repo", "worktree", "add", "-q", "--detach", scratch, "HEAD"], check=True)
+            subprocess.run(["git", "-C", "/repo", "worktree", "add", "-q", "--detach", scratch, base], check=True)
             subprocess.run(["git", "-C", scratch, "apply", patch], check=True)
             tmp = tempfile.mkdtemp(prefix="vsens-out-", dir="/tmp")
             for c in checks:
